@@ -47,6 +47,35 @@ const (
 )
 
 var c20Keys = []string{"a", "ab", "b", "c"}
+
+// c20BulkKeys: 80 more keys that only large Import / RemoveKeys mutations use.
+// A history that touches any of them is checked over all 84 keys.
+var c20BulkKeys, c20AllKeys = func() ([]string, []string) {
+	var bulk []string
+	for i := 0; i < 80; i++ {
+		bulk = append(bulk, fmt.Sprintf("n%02d", i))
+	}
+	all := append(append([]string{}, c20Keys...), bulk...)
+	sort.Strings(all)
+	return bulk, all
+}()
+
+func keysOfHistory(ops []op) []string {
+	for _, o := range ops {
+		for _, k := range o.Keys {
+			if strings.HasPrefix(k, "n") {
+				return c20AllKeys
+			}
+		}
+		for _, e := range o.Imp {
+			if strings.HasPrefix(e.Key, "n") {
+				return c20AllKeys
+			}
+		}
+	}
+	return c20Keys
+}
+
 var c20Children = []string{"x", "y", "z"}
 
 // ---- file-operation recorder ------------------------------------------------
@@ -212,6 +241,7 @@ func stopAOF(kv *aof.DiskKV, started bool) {
 }
 
 type c20Run struct {
+	keys     []string // every key the history can touch; all of them are read back from every image
 	ops      []op
 	outcomes []error // live result of every mutation
 	states   []model // states[i] = model after the first i mutations (effect iff acknowledged)
@@ -244,7 +274,7 @@ func runC20History(root string, ops []op, flush time.Duration) (*c20Run, error) 
 	registerCollector(col)
 	defer unregisterCollector(col)
 
-	run := &c20Run{ops: ops, liveAt: -1, batchOutcomes: map[int][]error{}}
+	run := &c20Run{keys: keysOfHistory(ops), ops: ops, liveAt: -1, batchOutcomes: map[int][]error{}}
 	kv, err := newAOF(abs, flush)
 	if err != nil {
 		return nil, fmt.Errorf("creating the store: %w", err)
@@ -286,10 +316,10 @@ func runC20History(root string, ops []op, flush time.Duration) (*c20Run, error) 
 			// the members raced, so their order is whatever the store made it:
 			// read the key back and adopt the state if some ordering of all
 			// members, consistent with every member's result, produces it
-			live, rerr := readStore(kv, c20Keys, false)
+			live, rerr := readStore(kv, run.keys, false)
 			var next model
 			if rerr == nil {
-				next = explainBatch(m, o.Batch, errs, live.canon(c20Keys, false))
+				next = explainBatch(m, o.Batch, errs, live.canon(run.keys, false), run.keys)
 			}
 			if next == nil {
 				run.batchUnexplained = fmt.Sprintf("step %d %s results %v live state %v (read error %v)", i, o, errStrings(errs), live, rerr)
@@ -382,7 +412,7 @@ func permutations(n int, ks map[int]bool, fn func(seq []int)) {
 // explainBatch returns the model after the batch if some ordering of ALL
 // members, in which every member is rejected exactly when it really was,
 // yields the state the live store shows; nil otherwise.
-func explainBatch(pre model, members []op, errs []error, liveCanon string) model {
+func explainBatch(pre model, members []op, errs []error, liveCanon string, keys []string) model {
 	var found model
 	permutations(len(members), map[int]bool{len(members): true}, func(seq []int) {
 		if found != nil {
@@ -397,7 +427,7 @@ func explainBatch(pre model, members []op, errs []error, liveCanon string) model
 				m.apply(members[i])
 			}
 		}
-		if m.snapshot(c20Keys).canon(c20Keys, false) == liveCanon {
+		if m.snapshot(keys).canon(keys, false) == liveCanon {
 			found = m
 		}
 	})
@@ -407,7 +437,7 @@ func explainBatch(pre model, members []op, errs []error, liveCanon string) model
 // batchCandidates is the set of states a crash in the middle of a batch may
 // leave: the state before it plus any subset of its members in any order
 // (a member the contract rejects at its place in the order has no effect).
-func batchCandidates(pre model, members []op) map[string]bool {
+func batchCandidates(pre model, members []op, keys []string) map[string]bool {
 	out := map[string]bool{}
 	all := map[int]bool{}
 	for k := 0; k <= len(members); k++ {
@@ -418,7 +448,7 @@ func batchCandidates(pre model, members []op) map[string]bool {
 		for _, i := range seq {
 			m.apply(members[i])
 		}
-		out[m.snapshot(c20Keys).canon(c20Keys, false)] = true
+		out[m.snapshot(keys).canon(keys, false)] = true
 	})
 	return out
 }
@@ -467,7 +497,7 @@ func checkC20Image(root string, run *c20Run, img *image) (res imgResult) {
 	if res.panicked != nil || res.reopenErr != nil {
 		return
 	}
-	res.got, res.harness = readStore(kv, c20Keys, false)
+	res.got, res.harness = readStore(kv, run.keys, false)
 	if res.harness != nil {
 		stopAOF(kv, false)
 		return
@@ -483,7 +513,7 @@ func checkC20Image(root string, run *c20Run, img *image) (res imgResult) {
 		return
 	}
 	res.continued = true
-	res.contSig, res.contMsg = continueAfterRecovery(kv, dir, img.idx, res.got)
+	res.contSig, res.contMsg = continueAfterRecovery(kv, dir, img.idx, res.got, run.keys)
 	return
 }
 
@@ -494,7 +524,7 @@ func checkC20Image(root string, run *c20Run, img *image) (res imgResult) {
 // same append again (the contract rejects it: exercises the rollback on the
 // recovered log) and a delete - then a clean Stop, a second reopen, and the
 // result must be the recovered state plus exactly the acknowledged ones.
-func continueAfterRecovery(kv *aof.DiskKV, dir string, idx int, got snapshot) (sig, msg string) {
+func continueAfterRecovery(kv *aof.DiskKV, dir string, idx int, got snapshot, keys []string) (sig, msg string) {
 	go kv.Start()
 	stopped := false
 	defer func() {
@@ -535,7 +565,7 @@ func continueAfterRecovery(kv *aof.DiskKV, dir string, idx int, got snapshot) (s
 		return sigC20ContReopen, fmt.Sprintf("second reopen (after recovery, 4 mutations, clean Stop) failed: %v", err)
 	}
 	defer stopAOF(kv2, false)
-	got2, rerr := readStore(kv2, c20Keys, false)
+	got2, rerr := readStore(kv2, keys, false)
 	if rerr != nil {
 		return sigC20ContState, rerr.Error()
 	}
@@ -551,7 +581,7 @@ func continueAfterRecovery(kv *aof.DiskKV, dir string, idx int, got snapshot) (s
 	wk2 := want[k2]
 	wk2.Simple = "-"
 	want[k2] = wk2
-	if g, w := got2.canon(c20Keys, false), want.canon(c20Keys, false); g != w {
+	if g, w := got2.canon(keys, false), want.canon(keys, false); g != w {
 		return sigC20ContState, fmt.Sprintf("after recovery + %v + clean restart the store shows %s, want %s", []string{steps[0].o.String(), steps[1].o.String(), steps[2].o.String() + " (rejected)", steps[3].o.String()}, g, w)
 	}
 	return "", ""
@@ -653,6 +683,9 @@ func checkC20Run(root string, rec *ev.Recorder, run *c20Run, histKey string, tag
 		labels := append([]string{"fileop:" + img.kind}, tags...)
 		if img.inflight >= 0 {
 			labels = append(labels, "inflight:"+run.ops[img.inflight].Kind)
+			if o := run.ops[img.inflight]; (o.Kind == "imp" && len(o.Imp) > 16) || (o.Kind == "rmk" && len(o.Keys) > 16) {
+				labels = append(labels, "inflight:"+o.Kind+">16keys")
+			}
 		} else {
 			labels = append(labels, "inflight:none")
 		}
@@ -701,16 +734,16 @@ func checkC20Run(root string, rec *ev.Recorder, run *c20Run, histKey string, tag
 			fail(sigC20Reopen, r, "image after %s %s (completed=%d in-flight=%d): aof.New: %v", img.kind, img.base, img.done, img.inflight, r.reopenErr)
 			continue
 		}
-		got := r.got.canon(c20Keys, false)
-		want0 := run.states[img.done].snapshot(c20Keys)
-		ok := got == want0.canon(c20Keys, false)
+		got := r.got.canon(run.keys, false)
+		want0 := run.states[img.done].snapshot(run.keys)
+		ok := got == want0.canon(run.keys, false)
 		var want1 snapshot
 		var wantSet map[string]bool
 		if !ok && img.inflight >= 0 && run.ops[img.inflight].Kind == "batch" {
 			// taken while 2..4 mutations were racing: any subset of them, in
 			// any order, may have reached the log
 			if batchSets[img.inflight] == nil {
-				batchSets[img.inflight] = batchCandidates(run.states[img.done], run.ops[img.inflight].Batch)
+				batchSets[img.inflight] = batchCandidates(run.states[img.done], run.ops[img.inflight].Batch, run.keys)
 			}
 			wantSet = batchSets[img.inflight]
 			ok = wantSet[got]
@@ -720,8 +753,8 @@ func checkC20Run(root string, rec *ev.Recorder, run *c20Run, histKey string, tag
 			if o := run.ops[img.inflight]; o.Kind != "restart" {
 				m1.apply(o)
 			}
-			want1 = m1.snapshot(c20Keys)
-			ok = got == want1.canon(c20Keys, false)
+			want1 = m1.snapshot(run.keys)
+			ok = got == want1.canon(run.keys, false)
 		}
 		if ok && r.contSig != "" {
 			fail(r.contSig, r, "image after %s %s (completed=%d in-flight=%d) reopened with the right contents, but: %s", img.kind, img.base, img.done, img.inflight, r.contMsg)
@@ -729,10 +762,23 @@ func checkC20Run(root string, rec *ev.Recorder, run *c20Run, histKey string, tag
 		}
 		if !ok {
 			if first == nil {
-				fail(sigC20State, r, "image after %s %s (completed=%d in-flight=%d): recovered %s, want %s%s", img.kind, img.base, img.done, img.inflight,
-					got, want0.canon(c20Keys, false), func() string {
+				partial := ""
+				if img.inflight >= 0 && run.ops[img.inflight].Kind == "imp" {
+					o, n := run.ops[img.inflight], 0
+					for _, e := range o.Imp {
+						if r.got[e.Key].Simple == vrepr(e.Simple.bytes()) {
+							n++
+						}
+					}
+					partial = fmt.Sprintf(" [%d of the %d keys of the in-flight Import are present]", n, len(o.Imp))
+				}
+				if len(run.keys) > 8 && want1 != nil {
+					partial += " differing keys: " + diffSnap(r.got, want0, want1, run.keys)
+				}
+				fail(sigC20State, r, "image after %s %s (completed=%d in-flight=%d)%s: recovered %s, want %s%s", img.kind, img.base, img.done, img.inflight, partial,
+					got, want0.canon(run.keys, false), func() string {
 						if want1 != nil {
-							return " or " + want1.canon(c20Keys, false)
+							return " or " + want1.canon(run.keys, false)
 						}
 						if wantSet != nil {
 							alts := []string{}
@@ -780,7 +826,28 @@ func opsStrings(ops []op) []string {
 
 // ---- generator ----------------------------------------------------------------
 
-func genC20Op(big bool) *rapid.Generator[op] {
+// bulkSelection: n distinct keys out of all 84, entry i getting a value whose
+// size cycles through 2 B / 300 B / 40 B / 3000 B and 0..2 children.
+func bulkKeys(n, off int) []string {
+	out := make([]string, n)
+	for i := range out {
+		out[i] = c20AllKeys[(off+i*37)%len(c20AllKeys)] // 37 is coprime to 84: distinct
+	}
+	return out
+}
+
+func genBulkSize(t *rapid.T) int {
+	switch s := rapid.IntRange(0, 9).Draw(t, "size-class"); {
+	case s == 0 || s == 9 || s == 4:
+		return rapid.IntRange(1, 3).Draw(t, "n")
+	case s == 1 || s == 5 || s == 8:
+		return rapid.IntRange(4, 16).Draw(t, "n")
+	default:
+		return rapid.IntRange(17, 80).Draw(t, "n")
+	}
+}
+
+func genC20Op(big, bulk bool) *rapid.Generator[op] {
 	key := rapid.SampledFrom(c20Keys)
 	child := rapid.SampledFrom(c20Children)
 	small := rapid.SampledFrom([]valSpec{{"v1", 2}, {"v2", 2}, {"w", 300}, {"long", 3000}})
@@ -788,6 +855,15 @@ func genC20Op(big bool) *rapid.Generator[op] {
 		k := rapid.IntRange(0, 99).Draw(t, "kind")
 		if big {
 			k = 0 // only puts, with segment-sized values
+		}
+		if bulk {
+			// in a bulk history two steps in five are bulk transfers
+			switch rapid.IntRange(0, 4).Draw(t, "bulk-step") {
+			case 1:
+				k = 71
+			case 3:
+				k = 77
+			}
 		}
 		switch {
 		case k < 20:
@@ -803,6 +879,17 @@ func genC20Op(big bool) *rapid.Generator[op] {
 		case k < 63:
 			return op{Kind: "rem", Key: key.Draw(t, "key"), Child: child.Draw(t, "child")}
 		case k < 72:
+			if bulk && rapid.IntRange(0, 3).Draw(t, "bulk-import") != 2 {
+				// a transfer of 1..80 keys in ONE Import call
+				n, off, salt := genBulkSize(t), rapid.IntRange(0, 83).Draw(t, "off"), rapid.IntRange(0, 11).Draw(t, "salt")
+				sizes := []int{2, 300, 40, 3000}
+				o := op{Kind: "imp"}
+				for i, key := range bulkKeys(n, off) {
+					o.Imp = append(o.Imp, impSpec{Key: key, Simple: valSpec{Fill: fmt.Sprintf("m%d.%d", salt, i), Len: sizes[(i+salt)%4]},
+						Children: append([]string{}, c20Children[:(i+salt)%3]...)})
+				}
+				return o
+			}
 			n := rapid.IntRange(1, 3).Draw(t, "n")
 			o := op{Kind: "imp"}
 			for i := 0; i < n; i++ {
@@ -812,6 +899,9 @@ func genC20Op(big bool) *rapid.Generator[op] {
 			}
 			return o
 		case k < 78:
+			if bulk && rapid.IntRange(0, 3).Draw(t, "bulk-remove") != 2 {
+				return op{Kind: "rmk", Keys: bulkKeys(genBulkSize(t), rapid.IntRange(0, 83).Draw(t, "off"))}
+			}
 			return op{Kind: "rmk", Keys: rapid.SliceOfNDistinct(key, 1, 3, rapid.ID[string]).Draw(t, "keys")}
 		case k < 96:
 			return genC20Batch(t)
@@ -866,6 +956,7 @@ func genC20Batch(t *rapid.T) op {
 }
 
 type c20Case struct {
+	Bulk  bool
 	Ops   []op
 	Flush time.Duration
 	Big   bool
@@ -884,18 +975,28 @@ func genC20Case(t *rapid.T) c20Case {
 		k := rapid.SampledFrom(c20Keys).Draw(t, "bkey")
 		c := rapid.SampledFrom(c20Children).Draw(t, "bchild")
 		ops := []op{{Kind: "app", Key: k, Child: c}}
-		ops = append(ops, rapid.SliceOfN(genC20Op(false), 0, 2).Draw(t, "pre")...)
-		ops = append(ops, rapid.SliceOfN(genC20Op(true), 2, 4).Draw(t, "bigs")...)
+		ops = append(ops, rapid.SliceOfN(genC20Op(false, false), 0, 2).Draw(t, "pre")...)
+		ops = append(ops, rapid.SliceOfN(genC20Op(true, false), 2, 4).Draw(t, "bigs")...)
 		ops = append(ops, op{Kind: "app", Key: k, Child: c})
-		ops = append(ops, rapid.SliceOfN(genC20Op(false), 0, 5).Draw(t, "post")...)
+		ops = append(ops, rapid.SliceOfN(genC20Op(false, false), 0, 5).Draw(t, "post")...)
 		return c20Case{Ops: ops, Flush: flush, Big: true}
 	}
 	n := rapid.IntRange(5, ev.Pick(30, 60)).Draw(t, "len")
-	ops := rapid.SliceOfN(genC20Op(false), n, n).Draw(t, "ops")
-	return c20Case{Ops: ops, Flush: flush}
+	// one history in four also moves bulk transfers: Import / RemoveKeys of
+	// 1..80 keys (40 % of them above 16 keys) over an 84-key alphabet
+	bulk := rapid.IntRange(0, 3).Draw(t, "bulk-history") == 2
+	ops := rapid.SliceOfN(genC20Op(false, bulk), n, n).Draw(t, "ops")
+	return c20Case{Ops: ops, Flush: flush, Bulk: bulk}
 }
 
 // ---- the check ------------------------------------------------------------------
+
+func b2i(b bool) int {
+	if b {
+		return 1
+	}
+	return 0
+}
 
 func histHash(ops []op, flush time.Duration) string {
 	h := sha256.Sum256([]byte(opsJSON(ops) + flush.String()))
@@ -937,7 +1038,7 @@ func c20Witness(t *testing.T, rec *ev.Recorder, root string) {
 
 func TestC20(t *testing.T) {
 	rec := ev.New(t, "C20")
-	rec.Rule("rapid-generated mutation histories (put, delete, prefix append over 3 children so that conflicts are frequent, prefix remove, import with overlapping keys, remove-keys, clean restart, and 'concurrent batch' steps in which 2..4 goroutines released from a spin barrier issue mutations on one key at the same instant - the same PrefixAppend from all of them, append vs remove of one child, put vs delete, or a mix; 5..30 steps, thorough 5..60; one history in a hundred (thorough: twenty), plus one fixed history per run, with 0.7-2.1 MiB values arranged so that the segment cycles and a rejected append is rolled back across segments; one in four with a 20 us flush ticker) run through the real Start loop. Every MkdirAll/OpenFile/Write/Sync/Close/Rename/Remove of the WAL library yields one crash image (copy of the log directory) tagged (mutations completed, mutation in flight); ALL images of a history are reopened with aof.New and read back (Get + PrefixList of every alphabet key); an image taken during a concurrent batch must equal the state before the batch plus some subset of its members in some order, and after the batch the model continues from the live state provided an ordering of all members consistent with their results explains it. One evaluation = one image. Non-trivial: the image was taken while the log is ahead of the acknowledged prefix, i.e. the entry of the in-flight mutation is already in a segment file and the client has no answer yet (for a mutation the store rejects this lasts from the write of its entry to the end of its rollback; those images are labelled window:rejected-mutation-in-log). Distinct = distinct (history, image index).")
+	rec.Rule("rapid-generated mutation histories (put, delete, prefix append over 3 children so that conflicts are frequent, prefix remove, import with overlapping keys, remove-keys (both with 1..3 keys, and in one history out of four with 1..80 keys of an 84-key alphabet, 40 % of those above 16 keys, values 2 B..3 KB), clean restart, and 'concurrent batch' steps in which 2..4 goroutines released from a spin barrier issue mutations on one key at the same instant - the same PrefixAppend from all of them, append vs remove of one child, put vs delete, or a mix; 5..30 steps, thorough 5..60; one history in a hundred (thorough: twenty), plus one fixed history per run, with 0.7-2.1 MiB values arranged so that the segment cycles and a rejected append is rolled back across segments; one in four with a 20 us flush ticker) run through the real Start loop. Every MkdirAll/OpenFile/Write/Sync/Close/Rename/Remove of the WAL library yields one crash image (copy of the log directory) tagged (mutations completed, mutation in flight); ALL images of a history are reopened with aof.New and read back (Get + PrefixList of every alphabet key); an image taken during a concurrent batch must equal the state before the batch plus some subset of its members in some order, and after the batch the model continues from the live state provided an ordering of all members consistent with their results explains it. One evaluation = one image. Non-trivial: the image was taken while the log is ahead of the acknowledged prefix, i.e. the entry of the in-flight mutation is already in a segment file and the client has no answer yet (for a mutation the store rejects this lasts from the write of its entry to the end of its rollback; those images are labelled window:rejected-mutation-in-log). Distinct = distinct (history, image index).")
 	rec.Assume(
 		"crash = the process stops (SIGKILL, panic, OOM kill): everything handed to the kernel survives, so a copy of the directory at a file-operation boundary is the post-crash image; power loss / torn sectors are C22's subject",
 		"granularity is the file-operation boundary named by the property's quantifier; a write(2) is not split",
@@ -997,6 +1098,19 @@ func TestC20(t *testing.T) {
 		}
 		if c.Flush < time.Second {
 			tags = append(tags, "history:flush-ticker")
+		}
+		if c.Bulk {
+			tags = append(tags, "history:bulk-transfers")
+			rec.Add("histories_with_bulk_transfers", 1)
+		}
+		for _, o := range c.Ops {
+			if n := len(o.Imp); o.Kind == "imp" && n > 3 {
+				rec.Add("imports_4_to_16_keys", int64(b2i(n <= 16)))
+				rec.Add("imports_over_16_keys", int64(b2i(n > 16)))
+			}
+			if n := len(o.Keys); o.Kind == "rmk" && n > 16 {
+				rec.Add("remove_keys_over_16_keys", 1)
+			}
 		}
 		if f := checkC20Run(root, rec, run, histHash(c.Ops, c.Flush), tags); f != nil {
 			f.doc["flush_interval"] = c.Flush.String()
